@@ -443,6 +443,7 @@ class Intervals:
         self.state_in = {0: init}
         work = [0]
         visits = {}
+        self.range_facts = {}      # (block, stmt) -> (start interval, end interval) of a constructed Range
         self.ret_payloads = []     # payload intervals of `_0 = Ok(x) / Some(x)`
         self.ret_values = []
         self.assert_facts = {}     # block -> (msg, fits?, operand intervals)
@@ -519,6 +520,11 @@ class Intervals:
                             self.ret_payloads.append(pay)
                     if rv.get("kind") == "adt" and (rv.get("adt") or "").endswith("ops::range::Range") and len(rv["ops"]) == 2 and not p["pr"]:
                         self.ranges[p["l"]] = (self.eval_op(st, rv["ops"][0]), self.eval_op(st, rv["ops"][1]), False)
+                        prev = self.range_facts.get((bi, si))
+                        cur = (self.eval_op(st, rv["ops"][0]), self.eval_op(st, rv["ops"][1]))
+                        if prev is not None and prev[1] is not None and cur[1] is not None:
+                            cur = (cur[0], join(prev[1], cur[1]))
+                        self.range_facts[(bi, si)] = cur
                     if rv.get("kind") == "tuple" and len(rv["ops"]) >= 1:
                         pay = self.eval_op(st, rv["ops"][0])
                 if not p["pr"]:
